@@ -30,7 +30,9 @@ RULE = (
     "sequentially pre-computed outcome.  Signature = (op, accessor/modifier, thread count, pass); distinct pre-emption lines and distinct "
     "cross-thread overlap pairs are reported as interleaving coverage.  ROLE-SPLIT rounds: each thread repeats one kind of pure call (rendering URLs of "
     "every scheme kind incl. authority-less ones, join pairs per scheme family, construction/build, modifiers) in a tight loop under three switch intervals, "
-    "every result compared online with its sequential value.  Thorough adds ASan+UBSan and TSan (instrumented launcher) builds."
+    "every result compared online with its sequential value; roles run in pairs (query rendering with per-call values, the cache API incl. failing "
+    "cache_configure calls).  A round whose threads stop advancing (all progress counters still for 15 s, two identical stack samples inside the staged yarl "
+    "sources) is a violation (thread_blocked_forever); a watchdog firing for any other reason is inconclusive.  Thorough adds ASan+UBSan and TSan (instrumented launcher) builds."
 )
 ASSUMPTIONS = [
     "schedules are sampled, not enumerated; TSan sees only true data races (accesses ordered by the GIL are ordered), atomicity violations are the differential monitor's job",
